@@ -107,3 +107,76 @@ pub proof fn lemma_f12in(x: &Fq12) ensures f12in(x.v()) { lemma_f6in(&x.c0); lem
         rj.add_fn(f)
     rj.finish()
     return u
+
+
+# ---------------------------------------------------------------------------------------------------------
+def stub_text(f, types=TYPES):
+    """external_body stub of a tower function carrying exactly the contract proved for it in this unit"""
+    from vx.ringjob import RingJobs
+    rj = RingJobs.__new__(RingJobs)
+    rj.types = types
+    c = rj.contract(f)
+    T = f['ty']
+    if f['upd']:
+        sig = f"pub fn {f['name']}({f['args']})"
+    else:
+        rty = f['rty'] or 'Self'
+        if f['name'] == 'inverse':
+            rty = 'Option<Self>'
+        sig = f"pub fn {f['name']}({f['args']}) -> (ret: {rty})"
+    return f"    #[verifier::external_body]\n    {sig}\n    {c.strip()}\n    {{ unimplemented!() }}\n"
+
+
+def tower_env(u, symx=False, opaque=()):
+    """the tower as seen by the layers above it: real structs and constant tables, trusted specs, and every
+    tower function as an external_body stub with the contract that unit `tower` proves for the real body."""
+    import re as _re
+    u.add_spec('base.vrs', symx=False)
+    for mod, name in (('fq', 'FqRepr'), ('fq', 'Fq')):
+        t = u.real_item(mod, 'struct', r'struct ' + name + r'\b', derive='Clone, Copy')
+        u.add(_re.sub(r'pub\((super|crate)\)', 'pub', t))
+    u.add_spec('fq_stub.vrs', symx=False)
+    tw = spec_text('tower.vrs')
+    if opaque == 'all':
+        import re as _r
+        keep = {'f2', 'f6', 'f12', 'f2zero', 'f2one', 'f6zero', 'f6one', 'f12zero', 'f12one', 'f2in', 'f6in', 'f12in', 'f12sq', 'f6sq', 'f2sq'}
+        opaque = [n for n in _r.findall(r'pub open spec fn (f(?:2|6|12)\w*)\(', tw + spec_text('tower_frob.vrs')) if n not in keep]
+    for name in opaque:
+        tw = tw.replace(f"pub open spec fn {name}(", f"#[verifier::opaque]\npub open spec fn {name}(")
+    u.parts.append(tw)
+    if symx:
+        from vx.unit import verus_to_rust_spec
+        u.symx_parts.append(verus_to_rust_spec(spec_text('tower.vrs')))
+    u.add_spec('tower_axioms.vrs', symx=False)
+    for T in ('Fq2', 'Fq6', 'Fq12'):
+        info = TYPES[T]
+        V = info['view']
+        u.add(u.real_item(info['mod'], 'struct', r'struct ' + T + r'\b', derive='Clone, Copy'))
+        u.add(f"impl {T} {{ pub open spec fn v(&self) -> {V} {{ {V} {{ " + ", ".join(f"{f}: self.{f}.v()" for f, _ in info['fields']) + " } } }")
+        u.add(f"""impl vstd::std_specs::cmp::PartialEqSpecImpl for {T} {{
+    open spec fn obeys_eq_spec() -> bool {{ true }}
+    open spec fn eq_spec(&self, other: &{T}) -> bool {{ self.v() == other.v() }}
+}}
+impl PartialEq for {T} {{
+    #[verifier::external_body]
+    fn eq(&self, other: &{T}) -> (ret: bool) ensures ret == (self.v() == other.v()) {{ unimplemented!() }}
+}}""")
+    for c in ('FROBENIUS_COEFF_FQ2_C1', 'FROBENIUS_COEFF_FQ6_C1', 'FROBENIUS_COEFF_FQ6_C2', 'FROBENIUS_COEFF_FQ12_C1'):
+        u.add(u.real_const('fq', c))
+    fr = spec_text('tower_frob.vrs')
+    for name in opaque:
+        fr = fr.replace(f"pub open spec fn {name}(", f"#[verifier::opaque]\npub open spec fn {name}(")
+    u.parts.append(fr)
+    by_ty = {}
+    for f in FNS:
+        by_ty.setdefault(f['ty'], []).append(f)
+    for T, fs in by_ty.items():
+        u.add(f"impl {T} {{")
+        for f in fs:
+            u.add(stub_text(f))
+        u.add("}")
+    u.add("""
+pub proof fn lemma_f2in(x: &Fq2) ensures f2in(x.v()) { ax_fq_range(x.c0); ax_fq_range(x.c1); }
+pub proof fn lemma_f6in(x: &Fq6) ensures f6in(x.v()) { lemma_f2in(&x.c0); lemma_f2in(&x.c1); lemma_f2in(&x.c2); }
+pub proof fn lemma_f12in(x: &Fq12) ensures f12in(x.v()) { lemma_f6in(&x.c0); lemma_f6in(&x.c1); }
+""")
